@@ -250,6 +250,9 @@ def run(ctx):
     cases += valcorr.validation_cases(ctx, 40 if ctx.quick else 600, unknown=0.35)   # UNKNOWN outcomes at many nodes: the abort rule of the mapping
     cases += valcorr.validation_cases(ctx, 40 if ctx.quick else 600, unknown=0.02, repeat_discriminators=0.3)   # discriminators are not unique in real AHBs
     cases += valcorr.validation_cases(ctx, 30 if ctx.quick else 400, unknown=0.02, extra_attrs=1.0)   # optional attributes of the maus model filled (line index not in list order, section names)
+    # the same trees validated again under other content, where "content" includes the package definitions: expressions with packages, most trees revisited
+    cases += valcorr.validation_cases(ctx, 30 if ctx.quick else 400, kind="pkg", unknown=0.02, revisit=0.7)
+    cases += valcorr.validation_cases(ctx, 20 if ctx.quick else 300, unknown=0.03, revisit=0.6)
     valcorr.check_val_correspondence(ctx, cases, "C13")
     nontrivial = sum(oracle(ctx, c) for c in cases)
     ctx.add_eval(mapping_oracle(ctx))
